@@ -308,6 +308,10 @@ func deref(info *types.Info, e ast.Expr) ast.Expr {
 		if !ok {
 			return e
 		}
+		if t := derefTuple(info, id); t != nil {
+			e = t
+			continue
+		}
 		next := derefStep(info, id)
 		if next == nil {
 			return e
@@ -315,6 +319,73 @@ func deref(info *types.Info, e ast.Expr) ast.Expr {
 		e = next
 	}
 	return ast.Unparen(e)
+}
+
+// derefTuple: id is defined once by `a, b := helper(...)` with helper an extracted function; the
+// expression the helper returns at id's position (its zero-value "nothing" returns aside, the
+// others agreeing) is returned.
+func derefTuple(info *types.Info, id *ast.Ident) ast.Expr {
+	p := curProg
+	obj, ok := info.Uses[id].(*types.Var)
+	if !ok || p == nil || obj.IsField() {
+		return nil
+	}
+	sc := p.ScopeAt(obj.Pos())
+	if sc == nil || sc.Fn == nil || sc.Fn.Decl == nil || sc.Fn.Decl.Body == nil {
+		return nil
+	}
+	var call *ast.CallExpr
+	idx, n := -1, 0
+	ast.Inspect(sc.Fn.Decl.Body, func(nd ast.Node) bool {
+		as, isAs := nd.(*ast.AssignStmt)
+		if !isAs {
+			return true
+		}
+		for i, l := range as.Lhs {
+			if prog.IdentObjPlain(info, l) != types.Object(obj) {
+				continue
+			}
+			n++
+			if len(as.Lhs) > 1 && len(as.Rhs) == 1 {
+				if c, isCall := ast.Unparen(as.Rhs[0]).(*ast.CallExpr); isCall {
+					call, idx = c, i
+				}
+			}
+		}
+		return true
+	})
+	if n != 1 || call == nil {
+		return nil
+	}
+	hf := p.FuncInfoOf(p.CalleeFunc(info, call))
+	if !isNewHelper(p, hf) {
+		return nil
+	}
+	var only ast.Expr
+	agree := true
+	ast.Inspect(hf.Decl.Body, func(nd ast.Node) bool {
+		if _, isLit := nd.(*ast.FuncLit); isLit {
+			return false
+		}
+		ret, isRet := nd.(*ast.ReturnStmt)
+		if !isRet || idx >= len(ret.Results) {
+			return true
+		}
+		res := ret.Results[idx]
+		if isZeroValueExpr(info, res) {
+			return true
+		}
+		if only == nil {
+			only = res
+		} else if types.ExprString(only) != types.ExprString(res) {
+			agree = false
+		}
+		return true
+	})
+	if !agree {
+		return nil
+	}
+	return only
 }
 
 // compositeField returns the value given to field name in a struct literal (keyed or positional).
@@ -761,6 +832,9 @@ func valueOrigin(info *types.Info, e ast.Expr, idx int) (*ast.CallExpr, int) {
 				}
 				return true
 			})
+			if n > 1 && sameCallDefs(p, info, sc.Fn.Decl.Body, obj) && def != nil {
+				n = 1 // several definitions, all `x, ... = f(...)` of the same f at the same result index
+			}
 			if n != 1 || def == nil {
 				// a parameter of an extracted helper with one call site
 				if d := derefStep(info, x); d != nil && d != ast.Expr(x) {
@@ -842,4 +916,145 @@ func derefStepQuiet(info *types.Info, id *ast.Ident) ast.Expr {
 		return nil
 	}
 	return d
+}
+
+// sameCallDefs: every definition of obj in body is a tuple / single assignment from a call of one
+// and the same function at the same result position (timer, ok := next(); for ok { ...; timer, ok
+// = next() }).
+func sameCallDefs(p *prog.Prog, info *types.Info, body ast.Node, obj types.Object) bool {
+	var fn *types.Func
+	idx := -1
+	ok := true
+	n := 0
+	ast.Inspect(body, func(nd ast.Node) bool {
+		as, isAs := nd.(*ast.AssignStmt)
+		if !isAs {
+			return true
+		}
+		for i, l := range as.Lhs {
+			if prog.IdentObjPlain(info, l) != obj {
+				continue
+			}
+			n++
+			var rhs ast.Expr
+			k := 0
+			if len(as.Lhs) == len(as.Rhs) {
+				rhs = as.Rhs[i]
+			} else if len(as.Rhs) == 1 {
+				rhs, k = as.Rhs[0], i
+			}
+			call, isCall := ast.Unparen(rhs).(*ast.CallExpr)
+			if !isCall {
+				ok = false
+				continue
+			}
+			f := p.CalleeFunc(info, call)
+			if f == nil || (fn != nil && f != fn) || (idx >= 0 && idx != k) {
+				ok = false
+			}
+			fn, idx = f, k
+		}
+		return true
+	})
+	return ok && n > 0 && fn != nil
+}
+
+// funcValueLit resolves an expression that denotes a function value to the literal behind it: a
+// literal, a local defined once as one, or an extracted helper used as a function / method value
+// (presented as the literal it replaced).
+func funcValueLit(p *prog.Prog, info *types.Info, e ast.Expr) *ast.FuncLit {
+	d := ast.Unparen(deref(info, e))
+	if lit, ok := d.(*ast.FuncLit); ok {
+		return lit
+	}
+	var id *ast.Ident
+	switch x := d.(type) {
+	case *ast.Ident:
+		id = x
+	case *ast.SelectorExpr:
+		id = x.Sel
+	}
+	if id == nil {
+		return nil
+	}
+	if fn, ok := info.Uses[id].(*types.Func); ok {
+		if hf := p.FuncInfoOf(fn); isNewHelper(p, hf) {
+			return synthLit(hf)
+		}
+	}
+	return nil
+}
+
+// tupleSource: obj is defined once in body by `a, b := helper(...)` with helper an extracted
+// function; the helper's variable returned at obj's position (a named result or a returned local)
+// is handed back, nil otherwise.
+func tupleSource(info *types.Info, body ast.Node, obj types.Object) types.Object {
+	p := curProg
+	if p == nil || obj == nil {
+		return nil
+	}
+	var call *ast.CallExpr
+	idx, n := -1, 0
+	ast.Inspect(body, func(nd ast.Node) bool {
+		as, ok := nd.(*ast.AssignStmt)
+		if !ok {
+			return true
+		}
+		for i, l := range as.Lhs {
+			if prog.IdentObjPlain(info, l) != obj {
+				continue
+			}
+			n++
+			if len(as.Lhs) > 1 && len(as.Rhs) == 1 {
+				if c, isCall := ast.Unparen(as.Rhs[0]).(*ast.CallExpr); isCall {
+					call, idx = c, i
+				}
+			}
+		}
+		return true
+	})
+	if n != 1 || call == nil {
+		return nil
+	}
+	hf := p.FuncInfoOf(p.CalleeFunc(info, call))
+	if !isNewHelper(p, hf) {
+		return nil
+	}
+	var src types.Object
+	agree := true
+	nRet := 0
+	ast.Inspect(hf.Decl.Body, func(nd ast.Node) bool {
+		if _, isLit := nd.(*ast.FuncLit); isLit {
+			return false
+		}
+		ret, isRet := nd.(*ast.ReturnStmt)
+		if !isRet {
+			return true
+		}
+		nRet++
+		if idx >= len(ret.Results) {
+			return true // bare return: the named result below
+		}
+		o := prog.IdentObjPlain(info, ret.Results[idx])
+		if o == nil || (src != nil && o != src) {
+			agree = false
+		}
+		src = o
+		return true
+	})
+	if src == nil && hf.Decl.Type.Results != nil {
+		k := 0
+		for _, fld := range hf.Decl.Type.Results.List {
+			for _, nm := range fld.Names {
+				if k == idx {
+					src = info.Defs[nm]
+				}
+				k++
+			}
+		}
+	}
+	if !agree {
+		return nil
+	}
+	return src
 }
